@@ -1,2 +1,306 @@
-/- Model driver for C10 (line protocol). Stub until the property's model lands. -/
-def main : IO Unit := pure ()
+/-
+  Model driver for C10 (trace inclusion). Imports Model + Gen only.
+
+  Input line :  <failspec> <step> <step> ... @ rets=<r,r,...> T=<trace>
+                (the op line given to harness/c10_main.c, then the harness's own answer)
+  Output line:  "ok steps=<n> events=<m>"                       the model accepts the trace
+                "skip-mt"                                       threaded scenario (not modelled)
+                "MISMATCH step=<i> <what>"                      the model does not accept it
+  The oracle `fail : Nat → Bool` is read off the trace itself (the attempts marked `x`), so any failure
+  pattern the harness produced (k-th, from-k, random subset) is replayed exactly.
+-/
+import XzVerif.Model.Proto
+import XzVerif.Model.Alloc
+import XzVerif.Gen.C10
+open XzVerif XzVerif.Proto XzVerif.Alloc
+
+def SZ : Sizes := Gen.C10.sizes
+
+/-- harness event -/
+inductive HEv where
+  | a (sz : Nat) | x (sz : Nat) | f (id : Nat) | bad (s : String)
+deriving Repr
+
+def splitOnC (s : String) (c : Char) : List String := s.splitOn (String.singleton c)
+
+def parseFilter (s : String) : Option Filter :=
+  match splitOnC s ',' with
+  | ["lzma2", d, mf, n, m] => do pure (.lzma true (← d.toNat?) (← mf.toNat?) (← n.toNat?) (← m.toNat?))
+  | ["lzma1", d, mf, n, m] => do pure (.lzma false (← d.toNat?) (← mf.toNat?) (← n.toNat?) (← m.toNat?))
+  | ["delta", d] => do pure (.delta (← d.toNat?))
+  | ["bcj", name, off] =>
+    let w := match name with
+      | "x86" => some 0 | "powerpc" => some 1 | "ia64" => some 2 | "arm" => some 3
+      | "armthumb" => some 4 | "arm64" => some 5 | "sparc" => some 6 | "riscv" => some 7 | _ => none
+    match w with
+    | none => none
+    | some w => if off == "-1" then some (.bcj w none) else do pure (.bcj w (some (← off.toNat?)))
+  | _ => none
+
+def parseChain (s : String) : Option Chain := (splitOnC s '+').mapM parseFilter
+
+def log2? (n : Nat) : Nat := Nat.log2 n
+
+def parseRecipe (s : String) : Option Recipe :=
+  match splitOnC s '/' with
+  | ["xz", _, c, len, nb, ns] => do
+    -- the recipe builder feeds `len` bytes per Block; an empty input creates no Block at all
+    let l ← len.toNat?
+    let nb' ← nb.toNat?
+    pure (.xz (← parseChain c) (if l == 0 then 0 else nb') (← ns.toNat?))
+  | ["lzma", f, _] => do
+    match ← parseFilter f with
+    | .lzma _ d .. => pure (.lzma d)
+    | _ => none
+  | ["lz", lg, _] => do pure (.lz (2 ^ (← lg.toNat?)))
+  | ["idx", n] => do pure (.idx (← n.toNat?))
+  | ["raw", c, _] => do pure (.raw (← parseChain c))
+  | ["blk", c, _, _] => do pure (.blk (← parseChain c))
+  | ["mlz", f, _] => do
+    match ← parseFilter f with
+    | .lzma _ d .. => pure (.mlz d)
+    | _ => none
+  | _ => none
+
+/-- driver-level mirror of the harness's per-scenario state -/
+structure DState where
+  w : World := {}
+  h : Heap := {}
+  usable : Bool := false
+  kind : Nat := 0            -- init id of the coder on the handle (0 = none)
+  chain : Chain := []        -- chain of the current stream encoder
+  recipe : Option Recipe := none
+  slot : Nat := 0
+
+def isEncoderKind (k : Nat) : Bool := k == I_SENC || k == I_AENC || k == I_MLENC || k == I_BENC || k == 200
+def isDecoderKind (k : Nat) : Bool :=
+  k == I_SDEC || k == I_AUTODEC || k == I_ALONEDEC || k == I_LZIPDEC || k == 201 || k == I_BDEC || k == I_MLDEC
+    || k == I_IDEC || k == I_FIDEC
+
+/-- what a step asks the model to do -/
+inductive Act where
+  | init (op : Op) (kind : Nat) (chain : Chain) (recipe : Option Recipe) (slot : Nat)
+  | encode (act len : Nat)
+  | iencode
+  | dcode
+  | upd (c : Chain)
+  | plain (op : Op)            -- non-stream API: the return code is the model's
+  | end_
+  | bad
+
+def strMeta (m : String) : Option (Nat × Option Nat × Bool) :=
+  -- "p" preset (1 alloc) | "c<n>" n filters ok | "c<n>p" parse error in the n-th (last allocated) | "c<n>v" validation error
+  match m.toList with
+  | ['p'] => some (1, none, false)
+  | 'c' :: rest =>
+    let digits := rest.takeWhile Char.isDigit
+    let tail := rest.dropWhile Char.isDigit
+    match (String.ofList digits).toNat? with
+    | none => none
+    | some n =>
+      match tail with
+      | [] => some (n, none, false)
+      | ['p'] => some (n, some (n - 1), false)
+      | ['v'] => some (n, none, true)
+      | _ => none
+  | _ => none
+
+def parseStep (tok : String) : Act :=
+  let a := splitOnC tok ':'
+  let chainOr (s : String) (k : Chain → Act) : Act := match parseChain s with | some c => k c | none => .bad
+  let recOr (s : String) (k : Recipe → Act) : Act := match parseRecipe s with | some r => k r | none => .bad
+  match a with
+  | ["easyenc", _, _, c] => chainOr c fun c => .init (.streamEncoder c) I_SENC c none 0
+  | ["senc", c, _] => chainOr c fun c => .init (.streamEncoder c) I_SENC c none 0
+  | ["aenc", f] => chainOr f fun c => match c with | [f] => .init (.aloneEncoder f) I_AENC [] none 0 | _ => .bad
+  | ["mlenc", f] => chainOr f fun c => match c with | [f] => .init (.microEncoder f) I_MLENC [] none 0 | _ => .bad
+  | ["renc", c] => chainOr c fun c => .init (.rawEncoder c) 200 [] none 0
+  | ["benc", c, _] => chainOr c fun c => .init (.blockEncoder c) I_BENC [] none 0
+  | ["ienc", s] => match s.toNat? with | some s => .init .indexEncoder I_IENC [] none s | none => .bad
+  | ["sdec", _, r] => recOr r fun r => .init .streamDecoder I_SDEC [] (some r) 0
+  | ["adec", _, r] => recOr r fun r => .init .autoDecoder I_AUTODEC [] (some r) 0
+  | ["alonedec", _, r] => recOr r fun r => .init .aloneDecoder I_ALONEDEC [] (some r) 0
+  | ["lzipdec", _, r] => recOr r fun r => .init .lzipDecoder I_LZIPDEC [] (some r) 0
+  | ["rdec", r] => recOr r fun r => match r with | .raw c => .init (.rawDecoder c) 201 [] (some r) 0 | _ => .bad
+  | ["bdec", r] => recOr r fun r => match r with | .blk c => .init (.blockDecoder c) I_BDEC [] (some r) 0 | _ => .bad
+  | ["mldec", r] => recOr r fun r => .init .microDecoder I_MLDEC [] (some r) 0
+  | ["idec", s, r] => recOr r fun r => match s.toNat? with | some s => .init .indexDecoder I_IDEC [] (some r) s | none => .bad
+  | ["fidec", s, r] => recOr r fun r => match s.toNat? with | some s => .init .fileInfoDecoder I_FIDEC [] (some r) s | none => .bad
+  | ["run", n] => match n.toNat? with | some n => .encode 0 n | none => .bad
+  | ["sync", n] => match n.toNat? with | some n => .encode 1 n | none => .bad
+  | ["full", n] => match n.toNat? with | some n => .encode 2 n | none => .bad
+  | ["finish", n] => match n.toNat? with | some n => .encode 3 n | none => .bad
+  | ["iencode"] => .iencode
+  | ["dcode"] => .dcode
+  | ["upd", c] => chainOr c .upd
+  | ["end"] => .end_
+  | ["ix_init", s] => match s.toNat? with | some s => .plain (.ixInit s) | none => .bad
+  | ["ix_app", s, n] => match s.toNat?, n.toNat? with | some s, some n => .plain (.ixAppend s n) | _, _ => .bad
+  | ["ix_cat", d, s] => match d.toNat?, s.toNat? with | some d, some s => .plain (.ixCat d s) | _, _ => .bad
+  | ["ix_dup", d, s] => match d.toNat?, s.toNat? with | some d, some s => .plain (.ixDup d s) | _, _ => .bad
+  | ["ix_end", s] => match s.toNat? with | some s => .plain (.ixEnd s) | none => .bad
+  | ["ix_bufdec", s, r] =>
+    match s.toNat?, parseRecipe r with | some s, some (.idx n) => .plain (.ixBufDecode s n) | _, _ => .bad
+  | ["fcopy", c] => chainOr c fun c => .plain (.filtersCopy c)
+  | ["bhdec", c] => chainOr c fun c => .plain (.blockHeaderDecode c)
+  | ["ffdec", f] => chainOr f fun c => match c with | [f] => .plain (.propsDecode f) | _ => .bad
+  | ["propdec", f] => chainOr f fun c => match c with | [f] => .plain (.propsDecode f) | _ => .bad
+  | ["str2f", _, _, m] =>
+    match strMeta m with
+    | some (n, perr, v) => .plain (.strToFilters n [] perr v)
+    | none => .bad
+  | ["f2str", _, _] => .plain .strAlloc
+  | ["strlist", _] => .plain .strAlloc
+  | ["sbufdec", _, r] => match parseRecipe r with | some (.xz c b s) => .plain (.streamBufferDecode c b s) | _ => .bad
+  | ["sbufenc", c, _, _] => chainOr c fun c => .plain (.streamBufferEncode c)
+  | ["ebufenc", _, _, _, c] => chainOr c fun c => .plain (.streamBufferEncode c)
+  | ["rbufenc", c, _] => chainOr c fun c => .plain (.rawBufferCode true c)
+  | ["rbufdec", c, _] => chainOr c fun c => .plain (.rawBufferCode false c)
+  | ["bbufenc", c, _, _] => chainOr c fun c => .plain (.rawBufferCode true c)
+  | ["bbufdec", c, _, _] => chainOr c fun c => .plain (.blockBufferDecode c)
+  | _ => .bad
+
+/-- the sizes of `lzma_str_to_filters` allocations are not modelled (they depend on the filter names) -/
+def wildcardSizes (op : Op) : Bool := match op with | .strToFilters .. => true | _ => false
+
+def runM {α} (m : M α) (fail : Oracle) (h : Heap) : α × Heap := m fail h
+
+/-- run one step on the model; returns the expected return code -/
+def stepModel (fail : Oracle) (st : DState) (act : Act) : Ret × DState :=
+  match act with
+  | .init op kind chain recipe slot =>
+    -- index encoder needs its Index, index / file-info decoders need an empty slot; otherwise the harness skips
+    let blocked := match op with
+      | .indexEncoder => (getIx st.w.ix slot).isNone
+      | .indexDecoder => (getIx st.w.ix slot).isSome
+      | .fileInfoDecoder => (getIx st.w.ix slot).isSome
+      | _ => false
+    if blocked then (RET_SKIP, st) else
+    let (r, h') := runM (runOp SZ st.w op) fail st.h
+    if r.1 == OK then
+      (OK, { st with w := r.2, h := h', usable := true, kind := kind, chain := chain, recipe := recipe, slot := slot })
+    else
+      (r.1, { st with w := r.2, h := h', usable := false, kind := 0, recipe := recipe, slot := slot })
+  | .encode act len =>
+    if !st.usable || !isEncoderKind st.kind then (RET_SKIP, st) else
+    let (r, h') := runM (runOp SZ st.w (.encode st.chain act len)) fail st.h
+    if r.1 == OK then
+      (if act == 0 then OK else STREAM_END, { st with w := r.2, h := h', usable := act != 3 })
+    else (r.1, { st with w := r.2, h := h', usable := false })
+  | .iencode =>
+    if !st.usable || st.kind != I_IENC then (RET_SKIP, st) else (STREAM_END, { st with usable := false })
+  | .dcode =>
+    if !st.usable || !isDecoderKind st.kind then (RET_SKIP, st) else
+    match st.recipe with
+    | none => (RET_SKIP, st)
+    | some rc =>
+      let (r, h') := runM (runOp SZ st.w (.decode rc st.slot)) fail st.h
+      (r.1, { st with w := r.2, h := h', usable := false })
+  | .upd c =>
+    if !st.usable || st.kind != I_SENC then (RET_SKIP, st) else
+    let (r, h') := runM (runOp SZ st.w (.filtersUpdate c)) fail st.h
+    (r.1, { st with w := r.2, h := h', chain := if r.1 == OK then c else st.chain })
+  | .plain op =>
+    let (r, h') := runM (runOp SZ st.w op) fail st.h
+    -- PROG_ERROR = an operand is missing because an earlier step failed: the harness skips such a step
+    (if r.1 == PROG_ERROR then RET_SKIP else r.1, { st with w := r.2, h := h' })
+  | .end_ =>
+    let (r, h') := runM (runOp SZ st.w .lzmaEnd) fail st.h
+    (OK, { st with w := r.2, h := h', usable := false, kind := 0 })
+  | .bad => (97, st)
+
+def parseHEv (s : String) : HEv :=
+  match s.toList with
+  | 'a' :: r => match (String.ofList r).toNat? with | some n => .a n | none => .bad s
+  | 'x' :: r => match (String.ofList r).toNat? with | some n => .x n | none => .bad s
+  | 'f' :: r => match (String.ofList r).toNat? with | some n => .f n | none => .bad s
+  | _ => .bad s
+
+/-- split the harness trace into (events, return code) per step -/
+def splitTrace (toks : List String) : Option (List (List HEv × Nat)) :=
+  let rec go (toks : List String) (cur : List HEv) (acc : List (List HEv × Nat)) (inStep : Bool) : Option (List (List HEv × Nat)) :=
+    match toks with
+    | [] => if inStep then none else some acc.reverse
+    | t :: rest =>
+      if t.startsWith "[" then (if inStep then none else go rest [] acc true)
+      else if t.startsWith "]" then
+        match (t.drop 1).toNat? with
+        | some r => if inStep then go rest [] ((cur.reverse, r) :: acc) false else none
+        | none => none
+      else if t == "" then go rest cur acc inStep
+      else if inStep then go rest (parseHEv t :: cur) acc inStep
+      else none     -- event outside a step (the `nofail` pseudo step produces none)
+  go toks [] [] false
+
+/-- indices (in attempt order) of the failed attempts -/
+def failedAttempts (steps : List (List HEv × Nat)) : List Nat :=
+  let evs := steps.flatMap (·.1)
+  let rec go (evs : List HEv) (k : Nat) (acc : List Nat) : List Nat :=
+    match evs with
+    | [] => acc
+    | .a _ :: r => go r (k + 1) acc
+    | .x _ :: r => go r (k + 1) (k :: acc)
+    | _ :: r => go r k acc
+  go evs 0 []
+
+def szOk (wild : Bool) (m : Option Nat) (h : Nat) : Bool :=
+  wild || match m with | none => true | some s => s == h
+
+/-- does the harness's event list for one step match the model's? returns an error text or none -/
+def matchEvents (wild : Bool) : List Ev → List HEv → Option String
+  | [], [] => none
+  | [], h :: _ => some s!"implementation did more: {repr h}"
+  | e :: _, [] => some s!"implementation did less; model expects {repr e}"
+  | .a _ sz :: me, .a hs :: he =>
+    if szOk wild sz hs then matchEvents wild me he else some s!"allocation size: model {repr sz} implementation {hs}"
+  | .x _ sz :: me, .x hs :: he =>
+    if szOk wild sz hs then matchEvents wild me he else some s!"allocation size: model {repr sz} implementation {hs}"
+  | .f i :: me, .f j :: he =>
+    if i == j then matchEvents wild me he else some s!"free: model frees block {i}, implementation block {j}"
+  | .fs ids :: me, he =>
+    let n := ids.length
+    let front := he.take n
+    let got := front.filterMap fun | .f j => some j | _ => none
+    if got.length == n && ids.all (got.contains ·) && got.all (ids.contains ·) then matchEvents wild me (he.drop n)
+    else some s!"free group: model frees {ids}, implementation next events {repr front}"
+  | e :: _, h :: _ => some s!"event kind: model {repr e} implementation {repr h}"
+
+partial def replay (fail : Oracle) (st : DState) (acts : List Act) (trace : List (List HEv × Nat)) (i : Nat) (nev : Nat)
+    : String :=
+  match acts, trace with
+  | [], [] =>
+    if st.h.bad then s!"MISMATCH step={i} model freed a block that was not live"
+    else s!"ok steps={i} events={nev}"
+  | act :: acts', (hev, hret) :: trace' =>
+    let logBefore := st.h.log.length
+    let (r, st') := stepModel fail st act
+    let newEvs := (st'.h.log.take (st'.h.log.length - logBefore)).reverse
+    let wild := match act with | .plain op => wildcardSizes op | _ => false
+    match matchEvents wild newEvs hev with
+    | some e => s!"MISMATCH step={i} {e}"
+    | none =>
+      if r != hret then s!"MISMATCH step={i} return code: model {r} implementation {hret}"
+      else replay fail st' acts' trace' (i + 1) (nev + hev.length)
+  | _, _ => s!"MISMATCH step={i} number of steps differs"
+
+def step (_ : Unit) (ws : List String) : Unit × String :=
+  match ws with
+  | [] => ((), "bad-op")
+  | _ :: rest =>
+    let steps := rest.takeWhile (· != "@")
+    let ans := (rest.dropWhile (· != "@")).drop 1
+    if steps.any (fun s => s.startsWith "sencmt" || s.startsWith "sdecmt") then ((), "skip-mt") else
+    let tr := ans.find? (·.startsWith "T=")
+    match tr with
+    | none => ((), "bad-op no trace")
+    | some t =>
+      match splitTrace (splitOnC (t.drop 2).toString ',') with
+      | none => ((), "bad-op trace")
+      | some trace =>
+        let acts := (steps.filter (· != "nofail")).map parseStep
+        if acts.any (fun a => match a with | .bad => true | _ => false) then ((), "bad-op step") else
+        let failed := failedAttempts trace
+        let fail : Oracle := fun k => failed.contains k
+        ((), replay fail {} acts trace 0 0)
+
+def main : IO Unit := runLoop step ()
